@@ -170,6 +170,15 @@ def expected_fingerprint(spec, with_defaults=True) -> dict:
     for sp, n in t.spellings().items():
         fp["names"][sp] = n
     fp["symbols"] = {n: (t.units[n].get("symbol") or n) for n in t.order}
+    # case-insensitive lookup of every spelling in another letter case (own names table)
+    from ..names_model import NamesTable
+
+    nt = NamesTable.from_spec(spec)
+    fp["ci"] = {}
+    for sp in t.spellings():
+        v = _other_case(sp)
+        rs = nt.readings(v, True) or nt.readings(v, False)
+        fp["ci"][v] = {"any_of": sorted({nt.canonical(r) for r in rs}) or ["exc:UndefinedUnitError"]}
     for n in t.order:
         u = t.units[n]
         f, d = t.root_of_unit(n)
@@ -238,6 +247,10 @@ def take_fingerprint(ureg, spec, num, full=True) -> dict:
     for sp in t.spellings():
         fp["names"][sp] = guard(lambda: ureg.get_name(sp))
     fp["symbols"] = {n: guard(lambda: ureg.get_symbol(n)) for n in t.order}
+    fp["ci"] = {}
+    for sp in t.spellings():
+        v = _other_case(sp)
+        fp["ci"][v] = guard(lambda: ureg.get_name(v, case_sensitive=False))
     for n in t.order:
         u = t.units[n]
 
@@ -289,6 +302,10 @@ def take_fingerprint(ureg, spec, num, full=True) -> dict:
     return fp
 
 
+def _other_case(sp):
+    return sp.upper() if sp != sp.upper() else sp.lower()
+
+
 def fp_diff(a, b) -> list:
     """Paths at which two fingerprints differ (numbers compared with tolerance when float)."""
     out = []
@@ -296,7 +313,10 @@ def fp_diff(a, b) -> list:
         if isinstance(a[sec], dict):
             for k in sorted(set(a[sec]) | set(b.get(sec, {}))):
                 va, vb = a[sec].get(k, "<absent>"), b.get(sec, {}).get(k, "<absent>")
-                if not core.answers_equal(va, vb):
+                if isinstance(va, dict) and "any_of" in va:
+                    if vb not in va["any_of"]:
+                        out.append([sec, k, va, vb])
+                elif not core.answers_equal(va, vb):
                     out.append([sec, k, va, vb])
         elif not core.answers_equal(a[sec], b.get(sec)):
             out.append([sec, None, a[sec], b.get(sec)])
